@@ -1,7 +1,7 @@
 #!/bin/sh
 # usage: ./confirm_seed.sh <seed-dir> <demo-file-relative-path-in-repo> <go-test-pkg> <-run pattern>
 # confirms in a scratch worktree: demo passes on the original, suite passes with the patch, demo fails with the patch
-d=$1; rel=$2; pkg=$3; pat=$4
+d=$(realpath $1); rel=$2; pkg=$3; pat=$4
 wt=/tmp/confirm-$$
 export GOFLAGS=-mod=mod GOPROXY=off GOSUMDB=off
 git -C /repo worktree add -q --detach $wt HEAD || exit 2
